@@ -9,13 +9,16 @@ tie:   (1) AST translator (fail-closed) regenerating gen/AtomicService_gen.v on 
            runner at every generated instant;
        (3) the same through MemOrchestrator / SQLiteOrchestrator.should_run_atomic_service under a virtual clock;
        (4) an oracle evaluated on the implementation's answers alone (count of authorised runners, margin
-           separation in exact rational arithmetic on the returned doubles, non-empty window per cycle).
+           separation in exact rational arithmetic on the returned doubles, non-empty window per cycle);
+       (5) active-runner lists WITH execution history (last_service_start / last_service_end of arbitrary, also
+           overrunning, lengths): data-flow fact gen_history_free (theorem authorisation_ignores_execution_history),
+           (2)+(4) repeated on such lists for the pure functions, (3)+(4) after record_atomic_service_execution.
 """
 from __future__ import annotations
 
 import json
 import math
-from datetime import UTC, datetime
+from datetime import UTC, datetime, timedelta
 from fractions import Fraction
 
 from harness import world
@@ -32,19 +35,26 @@ MANIFEST = {
             "rationals, for ALL runner lists, cycle lengths > 0, margins >= 0 (margin >= slot included), positions and instants: "
             "no two different active runners are authorised at the same instant; consecutive windows (and the wrap-around pair) are "
             "separated by exactly the margin whenever margin < slot; every position has a non-empty window inside the cycle and "
-            "every active runner is authorised at some instant of every cycle; a single runner always; an unknown runner never. "
+            "every active runner is authorised at some instant of every cycle; a single runner always; an unknown runner never; "
+            "the recorded execution history of the runners (last_service_start/end) reaches no result (data-flow fact read off "
+            "the AST, theorem authorisation_ignores_execution_history), so the statements hold for lists with arbitrary histories. "
             "Binary64 (what Python runs): the statement is REFUTED for the spelling end = start + size - margin (witness 9 runners, "
             "5.0 min, margin 0, t = 200.0 s: positions 5 and 6 both authorised) and, by monotonicity of rounding (Flocq), windows "
             "provably never cross for the spelling end = (position+1)*size - margin outside the half-slot fallback. Tie: fail-closed "
             "AST translator + bit-exact comparison (float.hex) of the PrimFloat instance with the real functions on all n <= 12 (16 "
             "thorough), a family of cycle lengths/margins, every slot boundary and its two float neighbours, a dense grid, several "
-            "cycles and epoch offsets up to 2^31 s; the same through should_run_atomic_service on both orchestrators under a "
-            "virtual clock; an oracle on the implementation's answers alone decides violations.",
+            "cycles and epoch offsets up to 2^31 s; every configuration again with active-runner lists that carry execution history "
+            "(2-4 lists per configuration, all 12 classes for margin >= slot in the thorough tier: one/all runners, durations "
+            "below/above half a slot, a slot, the cycle, zero, negative, start only, random) - windows and authorisations bit-equal "
+            "to the id-only model; the same through should_run_atomic_service on both orchestrators under a virtual clock, "
+            "without and with executions recorded by record_atomic_service_execution (re-recorded mid-run); an oracle on the "
+            "implementation's answers alone decides violations.",
     "note": "Trusted: Coq kernel; stdlib FloatAxioms (specification of primitive floats) and the classical-reals axioms used by "
             "Flocq for the binary64 lemmas (the rational theorems are closed under the global context); the AST translator; the "
             "hand mirror of calculate_runner_position (shape hash + correspondence); Python's float % for non-negative operands "
             "modelled as exact fmod on mantissa/exponent (checked bit-exactly by the correspondence). Instants are non-negative; "
-            "margin separation is checked on doubles up to 8 ulp of the cycle length. Known finding: adjacent windows overlap by "
+            "margin separation is checked on doubles up to 8 ulp of the cycle length. If the history reaches a result the translator "
+            "emits gen_history_free = false over the default definitions (proof breaks) instead of degrading. Known finding: adjacent windows overlap by "
             "one ulp for margin ~ 0 (proposed fix C12-slot-end-from-next-start.diff).",
     "design_ref": "DESIGN.md §6 C12",
 }
@@ -83,16 +93,68 @@ def same(a: float, b: float) -> bool:
     return (a != a and b != b) or a.hex() == b.hex()
 
 
-def mk_runners(n: int):
+T0 = datetime(2024, 1, 1, tzinfo=UTC)
+
+
+def hist_times(h):
+    """history entry [start offset s, duration s | None] -> (last_service_start, last_service_end)"""
+    if h is None:
+        return None, None
+    start = T0 + timedelta(seconds=h[0])
+    return start, (None if h[1] is None else start + timedelta(seconds=h[1]))
+
+
+def mk_runners(n: int, hist=None):
+    """n active runners; hist = None (no execution ever recorded) or one entry per position:
+    None | [start offset, duration] (what record_atomic_service_execution leaves in the listing)"""
     from pynenc.orchestrator.atomic_service import ActiveRunnerInfo
-    t0 = datetime(2024, 1, 1, tzinfo=UTC)
-    return [ActiveRunnerInfo(runner_id=f"r{i}", creation_time=t0, last_heartbeat=t0, allow_to_run_atomic_service=True)
-            for i in range(n)]
+    out = []
+    for i in range(n):
+        st, en = hist_times(hist[i] if hist else None)
+        out.append(ActiveRunnerInfo(runner_id=f"r{i}", creation_time=T0, last_heartbeat=T0, allow_to_run_atomic_service=True,
+                                    last_service_start=st, last_service_end=en))
+    return out
 
 
-def impl_slots(n, im, mm):
+def impl_slots(n, im, mm, runners=None):
+    """the windows; with `runners` as can_run_atomic_service computes them (the active list, history included)"""
     from pynenc.orchestrator.atomic_service import calculate_time_slot
-    return [calculate_time_slot(i, n, im, mm) for i in range(n)]
+    if runners is None:
+        return [calculate_time_slot(i, n, im, mm) for i in range(n)]
+    return [calculate_time_slot(i, n, im, mm, runners) for i in range(n)]
+
+
+def histories(rng, n: int, im: float, mm: float, how_many: int | None):
+    """execution histories of an active list: (class, [entry per position]); durations relative to the slot size,
+    overrunning ones (longer than half a slot, a slot, the whole cycle) included.  how_many=None: every class."""
+    I = im * 60
+    S = I / n
+    pos = rng.randrange(n)
+
+    def one(i, dur, start=0.0):
+        return [[start, dur] if j == i else None for j in range(n)]
+
+    fixed = [
+        ("one-overrun-1.5-slots", one(pos, 1.5 * S)),
+        ("all-random-up-to-3-slots", [[rng.uniform(0, 3600), rng.uniform(0, 3 * S)] for _ in range(n)]),
+    ]
+    pool = [
+        ("one-short", one(0, 1.0)),
+        ("last-0.4-slot", one(n - 1, 0.4 * S)),
+        ("all-0.9-slot", [[float(j), 0.9 * S] for j in range(n)]),
+        ("one-0.75-slot", one(pos, 0.75 * S)),
+        ("one-exactly-slot", one(pos, S)),
+        ("one-beyond-cycle", one(pos, 10 * I + 7.0)),
+        ("one-negative", one(pos, -S, 5000.0)),
+        ("one-zero", one(pos, 0.0)),
+        ("start-only", [[3.0, None] if j == pos else None for j in range(n)]),
+        ("sparse-random", [rng.choice([None, [rng.uniform(0, 3600), rng.choice(
+            [rng.uniform(0, S / 2), rng.uniform(S / 2, S), rng.uniform(S, 2 * S), rng.uniform(0, 2 * I)])]])
+            for _ in range(n)]),
+    ]
+    if how_many is None:
+        return fixed + pool
+    return fixed[:how_many] + (rng.sample(pool, max(0, how_many - len(fixed))) if how_many > len(fixed) else [])
 
 
 def impl_authorised(runners, t, im, mm) -> list[bool]:
@@ -162,24 +224,35 @@ def classify_overlap(slots, who: list[int]) -> str:
     return "overlap:non-adjacent"
 
 
-def oracle_instant(ctx: Ctx, n, im, mm, cls, slots, t, auth: list[bool]):
+def hist_note(hist) -> str:
+    if not hist:
+        return ""
+    return "; recorded executions (position: duration s) " + ", ".join(
+        f"{i}: {'running' if h[1] is None else repr(h[1])}" for i, h in enumerate(hist) if h is not None)
+
+
+def oracle_instant(ctx: Ctx, n, im, mm, cls, slots, t, auth: list[bool], hist=None):
     who = [i for i, a in enumerate(auth) if a]
     base = {"kind": "pure", "n": n, "interval_minutes": im.hex(), "margin_minutes": mm.hex(), "t": t.hex()}
+    if hist:
+        base["history"] = hist
     if n == 1 and who != [0]:
-        ctx.violation("single-runner-refused",
-                      f"a single active runner is not authorised at t={t!r} (interval {im} min, margin {mm} min)",
+        ctx.violation("single-runner-refused" + (":history" if hist else ""),
+                      f"a single active runner is not authorised at t={t!r} (interval {im} min, margin {mm} min)" + hist_note(hist),
                       {**base, "observed": who, "expected": [0]})
     if len(who) > 1:
         key = classify_overlap(slots, who)
+        if hist and key != KNOWN_KEY:
+            key += ":history"
         ctx.violation(key,
                       f"{len(who)} runners authorised at the same instant: n={n}, interval={im!r} min, margin={mm!r} min, "
                       f"t={t!r} (t % cycle = {t % (im * 60)!r}): positions {who}; windows "
-                      + ", ".join(f"{i}:[{slots[i][0]!r},{slots[i][1]!r})" for i in who),
+                      + ", ".join(f"{i}:[{slots[i][0]!r},{slots[i][1]!r})" for i in who) + hist_note(hist),
                       {**base, "observed": who, "expected": "at most one"})
     return who
 
 
-def oracle_config(ctx: Ctx, n, im, mm, cls, slots, runners, stats):
+def oracle_config(ctx: Ctx, n, im, mm, cls, slots, runners, stats, hist=None):
     """margin separation and non-empty windows, in exact arithmetic on the doubles the code returned"""
     if n < 2:
         return
@@ -188,10 +261,15 @@ def oracle_config(ctx: Ctx, n, im, mm, cls, slots, runners, stats):
     size = I / n
     tol = 8 * Fraction(math.ulp(im * 60))
     base = {"kind": "slots", "n": n, "interval_minutes": im.hex(), "margin_minutes": mm.hex()}
+    sfx = ""
+    if hist:
+        base["history"] = hist
+        sfx = ":history"
     for i, (s, e) in enumerate(slots):
         if not (0 <= s < e and Fraction(e) <= I + tol):
-            ctx.violation("window-empty-or-outside",
-                          f"window of position {i} is empty or leaves the cycle: [{s!r},{e!r}) n={n} interval={im!r} margin={mm!r}",
+            ctx.violation("window-empty-or-outside" + sfx,
+                          f"window of position {i} is empty or leaves the cycle: [{s!r},{e!r}) n={n} interval={im!r} margin={mm!r}"
+                          + hist_note(hist),
                           {**base, "position": i, "observed": [s.hex(), e.hex()]})
     if m <= size - tol:
         stats["margin_fits"] += 1
@@ -199,9 +277,9 @@ def oracle_config(ctx: Ctx, n, im, mm, cls, slots, runners, stats):
             nxt = Fraction(slots[i + 1][0]) if i + 1 < n else I + Fraction(slots[0][0])
             gap = nxt - Fraction(slots[i][1])
             if gap < m - tol:
-                ctx.violation("separation:below-margin",
+                ctx.violation("separation:below-margin" + sfx,
                               f"windows {i} and {(i + 1) % n} are separated by {float(gap)!r} s < margin {float(m)!r} s "
-                              f"(n={n}, interval={im!r} min, margin={mm!r} min)",
+                              f"(n={n}, interval={im!r} min, margin={mm!r} min)" + hist_note(hist),
                               {**base, "position": i, "observed_gap": float(gap), "expected_at_least": float(m)})
     elif m >= size:
         stats["margin_does_not_fit"] += 1
@@ -218,9 +296,9 @@ def oracle_config(ctx: Ctx, n, im, mm, cls, slots, runners, stats):
                 continue
             stats["window_probes"] += 1
             if not can_run_atomic_service(runners[i].runner_id, runners, t, im, mm):
-                ctx.violation("not-authorised-inside-window",
+                ctx.violation("not-authorised-inside-window" + sfx,
                               f"position {i} is not authorised at the middle of its window in cycle {k}: t={t!r} n={n} "
-                              f"interval={im!r} margin={mm!r}",
+                              f"interval={im!r} margin={mm!r}" + hist_note(hist),
                               {**base, "kind": "pure", "t": t.hex(), "observed": "refused", "expected": [i]})
 
 
@@ -248,6 +326,9 @@ def run_pure(ctx: Ctx, wide: bool, extra_random: int = 0):
     by_n: dict = {}
     by_cls: dict = {}
     auth_hist = {0: 0, 1: 0, 2: 0}
+    h_eval = 0
+    hstats: dict = {"lists": 0, "by_class": {}, "fallback_lists": 0, "lists_with_duration_over_slot": 0,
+                    "lists_with_duration_over_half_slot": 0, "model_mismatches": 0, "extra_instants": 0}
     for (n, im, mm, cls, runners, slots, ts), (m_slots, m_auth) in zip(cases, vals):
         by_n[n] = by_n.get(n, 0) + len(ts)
         by_cls[cls] = by_cls.get(cls, 0) + len(ts)
@@ -278,12 +359,76 @@ def run_pure(ctx: Ctx, wide: bool, extra_random: int = 0):
             if len(ctx.coverage["samples"]) < 3 and n in (3, 9) and len(who) == 1 and cls in ("default", "zero"):
                 ctx.sample({"n": n, "interval_min": im, "margin_min": mm, "t": t, "t_mod_cycle": t % (im * 60),
                             "authorised_positions": who, "window": list(slots[who[0]])})
+        h_eval += pure_with_history(ctx, wide, n, im, mm, cls, slots, ts, m_slots, m_auth, stats, hstats)
     ctx.count(n_eval, len({(c[0], c[1], c[2], t) for c in cases for t in c[6]}))
+    ctx.count(h_eval, h_eval)
+    ctx.notes["pure_with_execution_history"] = {"instants": h_eval, **hstats}
     ctx.notes["pure"] = {"configurations": len(cfgs), "instants": n_eval, "model_mismatches": mism,
                          "instants_by_runner_count": {str(k): v for k, v in sorted(by_n.items())},
                          "instants_by_margin_class": by_cls,
                          "authorised_count_histogram": {"none": auth_hist[0], "one": auth_hist[1], "two_or_more": auth_hist[2]},
                          **stats}
+
+
+def window_instants(slots, im: float) -> list[float]:
+    """boundaries, their float neighbours and the middles of the given windows, in cycle 0, 3 and at epoch ~1.7e9 s"""
+    I = im * 60
+    pts = sorted({b for s, e in slots for b in (s, e, (s + e) / 2) if b == b and abs(b) != math.inf})
+    out = []
+    for k in (0, 3, int(1_700_000_000 // I)):
+        for b in pts:
+            t = k * I + b
+            out += [t, math.nextafter(t, math.inf), math.nextafter(t, -math.inf)]
+    return [t for t in dict.fromkeys(out) if t >= 0.0 and t == t and t != math.inf]
+
+
+def pure_with_history(ctx: Ctx, wide, n, im, mm, cls, slots, ts, m_slots, m_auth, stats, hstats) -> int:
+    """The same configuration with active-runner lists that CARRY execution history (what the listing returns after
+    record_atomic_service_execution): the windows and every authorisation must be the ones of the id-only model
+    (bit-exact), and the oracle (at most one authorised, margin separation, non-empty windows inside the cycle) is
+    evaluated on the implementation's answers for these lists."""
+    from pynenc.orchestrator.atomic_service import can_run_atomic_service
+    S = im * 60 / n
+    fallback = mm * 60 >= S
+    k = None if (wide and fallback) else (4 if (wide or fallback) else 2)
+    done = 0
+    for hcls, hist in histories(ctx.rng, n, im, mm, k):
+        runners = mk_runners(n, hist)
+        durs = [h[1] for h in hist if h is not None and h[1] is not None]
+        hstats["lists"] += 1
+        hstats["by_class"][hcls] = hstats["by_class"].get(hcls, 0) + 1
+        hstats["fallback_lists"] += int(fallback)
+        hstats["lists_with_duration_over_slot"] += int(any(d > S for d in durs))
+        hstats["lists_with_duration_over_half_slot"] += int(any(d > S / 2 for d in durs))
+        slots_h = impl_slots(n, im, mm, runners)
+        moved = False
+        for i, ((s, e), mv) in enumerate(zip(slots_h, m_slots)):
+            ms, me = from_render(mv[:3]), from_render(mv[3:])
+            if not (same(s, ms) and same(e, me)):
+                moved = True
+                hstats["model_mismatches"] += 1
+                ctx.violation("model-mismatch:slot:history",
+                              f"calculate_time_slot({i},{n},{im!r},{mm!r}, runners with history) = ({s!r},{e!r}) but the "
+                              f"(history-free) binary64 model gives ({ms!r},{me!r})" + hist_note(hist),
+                              {"kind": "slots", "n": n, "interval_minutes": im.hex(), "margin_minutes": mm.hex(), "position": i,
+                               "history": hist, "observed": [s.hex(), e.hex()], "model": [ms.hex(), me.hex()]})
+        oracle_config(ctx, n, im, mm, cls, slots_h, runners, stats, hist)
+        extra = window_instants(slots_h, im) if moved else []
+        hstats["extra_instants"] += len(extra)
+        for j, t in enumerate(list(ts) + extra):
+            auth = impl_authorised(runners, t, im, mm)
+            done += 1
+            oracle_instant(ctx, n, im, mm, cls, slots_h, t, auth, hist)
+            if j < len(ts):
+                unknown = bool(can_run_atomic_service("not-registered", runners, t, im, mm))
+                if auth + [unknown] != [bool(x) for x in m_auth[j]]:
+                    hstats["model_mismatches"] += 1
+                    ctx.violation("model-mismatch:authorised:history",
+                                  f"can_run_atomic_service on a list with execution history differs from the binary64 model: n={n} "
+                                  f"interval={im!r} margin={mm!r} t={t!r}: impl {auth + [unknown]} model {m_auth[j]}" + hist_note(hist),
+                                  {"kind": "pure", "n": n, "interval_minutes": im.hex(), "margin_minutes": mm.hex(), "t": t.hex(),
+                                   "history": hist, "observed": auth + [unknown], "model": m_auth[j]})
+    return done
 
 
 # ---------------------------------------------------------------------------------------- through the orchestrators
@@ -295,9 +440,12 @@ class Clock:
         return self.t
 
 
-def orchestrator_authorised(kind: str, scratch: str, n: int, im: float, mm: float, ts: list[float]):
-    """n eligible runners (+1 ineligible worker) registered in creation order; at every instant all heartbeat,
-    then each asks should_run_atomic_service at the same (virtual) time."""
+def orchestrator_authorised(kind: str, scratch: str, n: int, im: float, mm: float, ts: list[float], hist=None,
+                            rerecord_at: int | None = None):
+    """n eligible runners (+1 ineligible worker) registered in creation order; the executions of `hist` (one entry
+    per position of the creation order) are recorded with record_atomic_service_execution; at every instant all
+    heartbeat, then each asks should_run_atomic_service at the same (virtual) time.  rerecord_at: index of the instant
+    before which the history is recorded a second time (a later execution of the same length replaces the first)."""
     import pynenc.orchestrator.base_orchestrator as bo
     import pynenc.orchestrator.mem_orchestrator as mo
     import pynenc.orchestrator.sqlite_orchestrator as so
@@ -306,6 +454,13 @@ def orchestrator_authorised(kind: str, scratch: str, n: int, im: float, mm: floa
     clock = Clock(ts[0] - 100.0 if ts[0] >= 100.0 else 0.0)
     saved = [(m, m.time) for m in (bo, mo, so)]
     out = []
+
+    def record(shift: float):
+        for rid, h in zip(order, hist or []):
+            if h is not None and h[1] is not None:
+                st, en = hist_times([h[0] + shift, h[1]])
+                orch.record_atomic_service_execution(rid, st, en)
+
     try:
         for m, _ in saved:
             m.time = clock
@@ -316,25 +471,50 @@ def orchestrator_authorised(kind: str, scratch: str, n: int, im: float, mm: floa
             orch.register_runner_heartbeats([rid], can_run_atomic_service=True)
         orch.register_runner_heartbeats(["worker-x"], can_run_atomic_service=False)
         order = list(reversed(ids))
-        for t in ts:
+        record(0.0)
+        for j, t in enumerate(ts):
             clock.t = t
+            if rerecord_at is not None and j == rerecord_at:
+                record(777.0)
             orch.register_runner_heartbeats(order, can_run_atomic_service=True)
             orch.register_runner_heartbeats(["worker-x"], can_run_atomic_service=False)
-            listed = [r.runner_id for r in orch.get_active_runners(can_run_atomic_service=True)]
-            out.append((listed, {rid: bool(orch.should_run_atomic_service(world.runner_ctx(rid))) for rid in order}))
+            act = orch.get_active_runners(can_run_atomic_service=True)
+            listed = [r.runner_id for r in act]
+            seen = {r.runner_id: r.get_last_execution_duration_seconds() for r in act}
+            out.append((listed, {rid: bool(orch.should_run_atomic_service(world.runner_ctx(rid))) for rid in order}, seen))
     finally:
         for m, f in saved:
             m.time = f
     return out
 
 
+def orchestrator_histories(rng, n: int, im: float, mm: float, wide: bool):
+    """None (nothing recorded) + histories recorded through the orchestrator (durations as exact doubles of whole
+    microseconds are not needed: the listing is compared with what was recorded up to 1 us)"""
+    S = im * 60 / n
+    fallback = mm * 60 >= S
+    out = [("none", None)]
+    if n < 1:
+        return out
+    pos = rng.randrange(n)
+    hs = [("one-overrun-1.5-slots", [[0.0, round(1.5 * S, 3)] if j == pos else None for j in range(n)])]
+    if fallback or wide:
+        hs.append(("all-random-up-to-3-slots", [[float(j), round(rng.uniform(0, 3 * S), 3)] for j in range(n)]))
+    if wide:
+        hs.append(("all-0.9-slot", [[float(j), round(0.9 * S, 3)] for j in range(n)]))
+        hs.append(("one-beyond-cycle", [[0.0, round(10 * im * 60 + 7, 3)] if j == (pos + 1) % n else None for j in range(n)]))
+    return out + hs
+
+
 def run_orchestrators(ctx: Ctx, scratch: str, wide: bool):
     rng = ctx.rng
-    cfgs = [(9, 5.0, 0.0), (3, 6.0, 1.0), (1, 5.0, 1.0), (4, 5.0, 2.0), (7, 6.0, 0.0), (2, 0.1, 0.0)]
+    cfgs = [(9, 5.0, 0.0), (3, 6.0, 1.0), (1, 5.0, 1.0), (4, 5.0, 2.0), (7, 6.0, 0.0), (2, 0.1, 0.0), (3, 3.0, 2.0), (6, 5.0, 1.0)]
     if wide:
         cfgs += [(n, im, mm) for n in (2, 5, 12) for im in (5.0, 7.0) for mm in (0.0, 1.0, im / n)]
     n_eval = 0
     mism = 0
+    hnote = {"runs_with_recorded_executions": 0, "runs_where_the_listing_shows_them": 0, "fallback_runs_with_history": 0,
+             "by_class": {}}
     for (n, im, mm) in cfgs:
         slots = impl_slots(n, im, mm)
         I = im * 60
@@ -343,44 +523,66 @@ def run_orchestrators(ctx: Ctx, scratch: str, wide: bool):
                     | {k * I + rng.random() * I for _ in range(12 if wide else 6)})
         ts = [t for t in ts if t >= 1000.0]
         order = [f"runner-{i}" for i in reversed(range(n))]          # creation order used by orchestrator_authorised
+        variants = orchestrator_histories(rng, n, im, mm, wide)
         for kind in ("mem", "sqlite"):
-            got = orchestrator_authorised(kind, scratch, n, im, mm, ts)
-            lists = {tuple(l) for l, _ in got}
-            listed = list(got[0][0])
-            if lists != {tuple(order)}:
-                ctx.notes.setdefault("active_list_differences", []).append(
-                    {"backend": kind, "n": n, "expected_creation_order": order, "observed": [list(x) for x in sorted(lists)][:3]})
             model = None
-            if len(lists) == 1 and listed:
-                nl = len(listed)
-                model = ctx.coq_eval(IMPORTS, [
-                    "map (fun t => map (fun r => gen_can_run_atomic_service F64 r (iota %d) t %s %s) (iota %d)) [%s]"
-                    % (nl, fhex(im), fhex(mm), nl, "; ".join(fhex(t) for t in ts))])[0]
-            for j, (t, (lst, auth)) in enumerate(zip(ts, got)):
-                n_eval += 1
-                who = [i for i, rid in enumerate(order) if auth[rid]]
-                rp = {"kind": "orchestrator", "backend": kind, "n": n, "interval_minutes": im.hex(),
-                      "margin_minutes": mm.hex(), "t": t.hex()}
-                if len(who) > 1:
-                    key = classify_overlap(slots, who) if lst == order else "overlap:orchestrator-list"
-                    ctx.violation(key,
-                                  f"{kind}: should_run_atomic_service authorises {len(who)} runners at the same instant t={t!r} "
-                                  f"(n={n}, interval={im!r} min, margin={mm!r} min): positions {who} of {lst}",
-                                  {**rp, "observed": who, "expected": "at most one"})
-                if n == 1 and who != [0]:
-                    ctx.violation("single-runner-refused", f"{kind}: the single runner is refused at t={t!r}",
-                                  {**rp, "observed": who, "expected": [0]})
-                if model is not None:
-                    want = {rid: bool(model[j][lst.index(rid)]) if rid in lst else (len(lst) == 1) for rid in order}
-                    if want != auth:
-                        mism += 1
-                        ctx.violation(f"model-mismatch:orchestrator:{kind}",
-                                      f"{kind}: should_run_atomic_service differs from the model at t={t!r} n={n} interval={im!r} "
-                                      f"margin={mm!r} list={lst}: impl {auth} model {want}",
-                                      {**rp, "observed": auth, "model": want})
+            for hcls, hist in variants:
+                rerec = (len(ts) // 2) if (hist and hcls.startswith("all-random")) else None
+                got = orchestrator_authorised(kind, scratch, n, im, mm, ts, hist, rerec)
+                lists = {tuple(l) for l, _, _ in got}
+                listed = list(got[0][0])
+                if lists != {tuple(order)}:
+                    ctx.notes.setdefault("active_list_differences", []).append(
+                        {"backend": kind, "n": n, "expected_creation_order": order, "observed": [list(x) for x in sorted(lists)][:3]})
+                if hist:
+                    hnote["runs_with_recorded_executions"] += 1
+                    hnote["by_class"][hcls] = hnote["by_class"].get(hcls, 0) + 1
+                    hnote["fallback_runs_with_history"] += int(mm * 60 >= I / n)
+                    want_seen = {rid: (h[1] if h is not None else None) for rid, h in zip(order, hist)}
+                    shown = all(all((sn.get(rid) is None) == (d is None) and (d is None or abs(sn[rid] - d) <= 1e-6)
+                                    for rid, d in want_seen.items()) for _, _, sn in got)
+                    hnote["runs_where_the_listing_shows_them"] += int(shown)
+                    if not shown:
+                        ctx.notes.setdefault("history_not_listed", []).append(
+                            {"backend": kind, "n": n, "class": hcls, "recorded": want_seen, "listed": got[0][2]})
+                if model is None and len(lists) == 1 and listed:
+                    nl = len(listed)
+                    model = (listed, ctx.coq_eval(IMPORTS, [
+                        "map (fun t => map (fun r => gen_can_run_atomic_service F64 r (iota %d) t %s %s) (iota %d)) [%s]"
+                        % (nl, fhex(im), fhex(mm), nl, "; ".join(fhex(t) for t in ts))])[0])
+                for j, (t, (lst, auth, _sn)) in enumerate(zip(ts, got)):
+                    n_eval += 1
+                    who = [i for i, rid in enumerate(order) if auth[rid]]
+                    rp = {"kind": "orchestrator", "backend": kind, "n": n, "interval_minutes": im.hex(),
+                          "margin_minutes": mm.hex(), "t": t.hex()}
+                    sfx = ""
+                    if hist:
+                        rp["history"] = hist
+                        sfx = ":history"
+                    if len(who) > 1:
+                        key = classify_overlap(slots, who) if lst == order else "overlap:orchestrator-list"
+                        if key != KNOWN_KEY and hist:
+                            key += f":history:{kind}"
+                        ctx.violation(key,
+                                      f"{kind}: should_run_atomic_service authorises {len(who)} runners at the same instant t={t!r} "
+                                      f"(n={n}, interval={im!r} min, margin={mm!r} min): positions {who} of {lst}"
+                                      + (hist_note(hist) + " recorded with record_atomic_service_execution" if hist else ""),
+                                      {**rp, "observed": who, "expected": "at most one"})
+                    if n == 1 and who != [0]:
+                        ctx.violation("single-runner-refused" + sfx, f"{kind}: the single runner is refused at t={t!r}",
+                                      {**rp, "observed": who, "expected": [0]})
+                    if model is not None and list(lst) == model[0]:
+                        mrow = model[1][j]
+                        want = {rid: bool(mrow[lst.index(rid)]) if rid in lst else (len(lst) == 1) for rid in order}
+                        if want != auth:
+                            mism += 1
+                            ctx.violation(f"model-mismatch:orchestrator:{kind}" + sfx,
+                                          f"{kind}: should_run_atomic_service differs from the model at t={t!r} n={n} interval={im!r} "
+                                          f"margin={mm!r} list={lst}: impl {auth} model {want}" + hist_note(hist),
+                                          {**rp, "observed": auth, "model": want})
     ctx.count(n_eval, n_eval)
     ctx.notes["orchestrators"] = {"configurations": len(cfgs), "instants_x_backends": n_eval, "model_mismatches": mism,
-                                  "backends": ["mem", "sqlite"]}
+                                  "backends": ["mem", "sqlite"], "execution_history": hnote}
 
 
 # ---------------------------------------------------------------------------------------- main / replay
@@ -391,7 +593,9 @@ def main(ctx: Ctx) -> int:
         ctx.log("calculate_runner_position changed shape - relying on the correspondence for the position lookup")
     pr = ctx.prove("Props/C12.v")
     # a broken proof / degraded translator widens the search for a concrete failing input
-    extra = 300 if ((not pr.ok) or bool(info.get("degraded"))) else 0
+    if info.get("history_reaches_result"):
+        ctx.log(f"execution history reaches a result: {info.get('history_free')} - gen_history_free is false, Props/C12.v cannot build")
+    extra = 300 if ((not pr.ok) or bool(info.get("degraded")) or bool(info.get("history_reaches_result"))) else 0
     scratch = world.scratch_dir()
     try:
         run_pure(ctx, ctx.thorough, extra)
@@ -399,12 +603,15 @@ def main(ctx: Ctx) -> int:
     finally:
         world.rm_scratch(scratch)
     ctx.notes["end_form"] = info.get("end_form", "unknown (translator degraded)")
+    ctx.notes["history_free"] = info.get("history_free", "unknown (translator degraded)")
     ctx.assumptions += [
         "instants are non-negative doubles (Unix time); interval > 0 and margin >= 0 (the theorems' hypotheses)",
         "Python float % on non-negative operands = exact fmod (modelled on mantissa/exponent; compared bit-exactly on every instant)",
         "margin separation on doubles is checked up to 8 ulp of the cycle length; the exact statement is the theorem over rationals",
         "runner ids are distinct (dictionary keys / primary key in both backends); position = first match",
         "the through-orchestrator runs refresh every runner's heartbeat at the instant asked ('given the same list of active runners')",
+        "execution history = what ActiveRunnerInfo carries (last_service_start, last_service_end); history-freedom of the three "
+        "functions is a syntactic data-flow fact (assignments, walrus, loop targets, control dependence) over atomic_service.py",
     ]
     ctx.trusted += [
         "stdlib FloatAxioms (specification of the primitive float operations) for every binary64 statement",
@@ -414,7 +621,9 @@ def main(ctx: Ctx) -> int:
         rule="configurations = all n in 1..12 (16 thorough) x cycle-length family x margin classes (0, default, tiny, half/quarter slot, "
              "exactly slot, one ulp below/above slot, twice slot, whole cycle) + seeded random ones; instants = every slot boundary, 0 "
              "and the cycle length with both float neighbours in cycles {0,1,3,(7,1000)} and at epoch offsets ~1.7e9 s and ~2^31 s, "
-             "plus a seeded dense grid; one evaluation = all runners of one configuration asked at one instant (model and "
+             "plus a seeded dense grid; each configuration again with 2 (margin fits) / 4 (margin >= slot) / all 12 (thorough, margin >= "
+             "slot) execution histories on the active list (same instants + the boundaries of any window that moved); orchestrators: "
+             "8 (26 thorough) configurations x {mem, sqlite} x {no history, 1-4 recorded histories}; one evaluation = all runners of one configuration asked at one instant (model and "
              "implementation compared bit-exactly, oracle on the implementation's answers); distinct_nontrivial = distinct "
              "(configuration, instant) pairs")
 
@@ -425,24 +634,41 @@ def replay(ctx: Ctx, path: str) -> int:
     n = rp["n"]
     im = float.fromhex(rp["interval_minutes"])
     mm = float.fromhex(rp["margin_minutes"])
-    slots = impl_slots(n, im, mm)
+    hist = rp.get("history")
+    runners = mk_runners(n, hist)
+    slots = impl_slots(n, im, mm, runners if hist else None)
+    if hist:
+        print("recorded executions [start offset s, duration s] per position:", hist)
+        print("windows without history:", impl_slots(n, im, mm))
     print("windows:", [(s, e) for s, e in slots])
     if rp["kind"] == "slots":
         print("observed", rp.get("observed", rp.get("observed_gap")), "expected", rp.get("expected_at_least", rp.get("model")))
+        if hist and "position" in rp and "observed" in rp and isinstance(rp["observed"], list):
+            i = rp["position"]
+            now = [slots[i][0].hex(), slots[i][1].hex()]
+            print("window of position", i, "now:", now, "REPRODUCED" if now == rp["observed"] else "differs from the recorded one")
         return 0
     t = float.fromhex(rp["t"])
     if rp["kind"] == "pure":
-        auth = impl_authorised(mk_runners(n), t, im, mm)
+        auth = impl_authorised(runners, t, im, mm)
     else:
         scratch = world.scratch_dir()
         try:
-            lst, d = orchestrator_authorised(rp["backend"], scratch, n, im, mm, [t])[0]
-            print("active list:", lst)
+            lst, d, seen = orchestrator_authorised(rp["backend"], scratch, n, im, mm, [t], hist)[0]
+            print("active list:", lst, "| durations in the listing:", seen)
             auth = [d[f"runner-{i}"] for i in reversed(range(n))]
         finally:
             world.rm_scratch(scratch)
     who = [i for i, a in enumerate(auth) if a]
     print(f"n={n} interval={im!r} min margin={mm!r} min t={t!r} (t % cycle = {t % (im * 60)!r})")
     print("authorised positions now:", who, "| recorded:", rp.get("observed"), "| expected:", rp.get("expected", rp.get("model")))
+    if "model" in rp:
+        obs = rp.get("observed")
+        now = ({f"runner-{i}": a for i, a in zip(reversed(range(n)), auth)} if isinstance(obs, dict) else auth)
+        recorded = obs if isinstance(obs, dict) else list(obs)[:n]
+        print("answers now:", now)
+        print("REPRODUCED (same answers as recorded, different from the model)" if now == recorded
+              else "answers differ from the recorded ones on this tree")
+        return 0
     print("REPRODUCED" if (len(who) > 1 or who == [] and n == 1) else "not a double authorisation on this tree")
     return 0
